@@ -402,6 +402,14 @@ func TestC08Free(t *testing.T) {
 		rounds := 3 + rep%5
 		conn, hc, key, cleanup := setup(t)
 		hap.VerifYield = nil
+		if rep%4 == 1 {
+			// a slow peer: every socket write of more than a frame takes a while (longer than a keep-alive interval)
+			conn.WriteGate = func(b []byte) {
+				if len(b) > 1100 {
+					time.Sleep(400 * time.Microsecond)
+				}
+			}
+		}
 		want := map[string]bool{}
 		var wg sync.WaitGroup
 		start := make(chan struct{})
